@@ -261,64 +261,12 @@ theorem forall_mem_append_singleton {α} {P : α → Prop} {l : List α} {x : α
   · exact h a ha
   · simp only [List.mem_singleton] at ha; subst ha; exact hx
 
-/-- one entry of the outline -/
-def outlineStep (m : PlaceholderMap) (st : Outcome (ProofOutline × List Pred)) (anf0 : SAnn) : Outcome (ProofOutline × List Pred) :=
-  match st with
-  | .ok (po, taken) =>
-    let anf := anf0.replacePlaceholders m
-    match anf.role with
-    | .lemma | .inductiveLemma =>
-      let closed : SAnn := ({ anf with formula := anf.formula.closureJoined } : SAnn).replacePlaceholders m
-      match generalLemma closed with
-      | .ok gl =>
-        match anf.direction with
-        | .universal => .ok ({ po with forwardLemmas := po.forwardLemmas ++ [gl], backwardLemmas := po.backwardLemmas ++ [gl] }, taken)
-        | .forward => .ok ({ po with forwardLemmas := po.forwardLemmas ++ [gl] }, taken)
-        | .backward => .ok ({ po with backwardLemmas := po.backwardLemmas ++ [gl] }, taken)
-      | .err e => .err e
-      | .panic s => .panic s
-      | .timeout => .timeout
-    | .definition =>
-      match checkDefinition anf.formula taken with
-      | .ok p =>
-        let taken := ins taken p
-        match anf.direction with
-        | .forward => .ok ({ po with forwardDefinitions := po.forwardDefinitions ++ [anf] }, taken)
-        | .backward => .ok ({ po with backwardDefinitions := po.backwardDefinitions ++ [anf] }, taken)
-        | .universal => .ok ({ po with forwardDefinitions := po.forwardDefinitions ++ [anf],
-                                       backwardDefinitions := po.backwardDefinitions ++ [anf] }, taken)
-      | .err e => .err e
-      | .panic s => .panic s
-      | .timeout => .timeout
-    | .assumption | .spec => .err .annotatedFormulaWithInvalidRole
-  | other => other
-
-theorem proofOutlineFrom_eq (spec : Specification) (taken : List Pred) (m : PlaceholderMap) :
-    proofOutlineFrom spec taken m =
-      match spec.foldl (outlineStep m) (.ok ({}, taken)) with
-      | .ok (po, _) => .ok po
-      | .err e => .err e
-      | .panic s => .panic s
-      | .timeout => .timeout := rfl
-
-theorem outlineStep_good (m : PlaceholderMap) (po : ProofOutline) (taken : List Pred) (a : SAnn)
-    (po' : ProofOutline) (taken' : List Pred) (hgood : POGood po)
-    (h : outlineStep m (.ok (po, taken)) a = .ok (po', taken')) : POGood po' := by
+theorem outlineStep_good (m : PlaceholderMap) (po : ProofOutline) (taken lem : List Pred) (a : SAnn)
+    (po' : ProofOutline) (taken' lem' : List Pred) (hgood : POGood po)
+    (h : outlineStep m (.ok (po, taken, lem)) a = .ok (po', taken', lem')) : POGood po' := by
   unfold outlineStep at h
   simp only at h
   split at h
-  · -- lemma / inductive lemma
-    split at h
-    · rename_i gl hgl
-      have hg : GLGood gl := ⟨generalLemma_sound _ gl hgl, generalLemma_roles _ gl hgl⟩
-      split at h <;>
-        (injection h with h; injection h with h1 _; subst h1)
-      · exact ⟨forall_mem_append_singleton hgood.1 hg, forall_mem_append_singleton hgood.2 hg⟩
-      · exact ⟨forall_mem_append_singleton hgood.1 hg, hgood.2⟩
-      · exact ⟨hgood.1, forall_mem_append_singleton hgood.2 hg⟩
-    · cases h
-    · cases h
-    · cases h
   · split at h
     · rename_i gl hgl
       have hg : GLGood gl := ⟨generalLemma_sound _ gl hgl, generalLemma_roles _ gl hgl⟩
@@ -331,62 +279,76 @@ theorem outlineStep_good (m : PlaceholderMap) (po : ProofOutline) (taken : List 
     · cases h
     · cases h
   · split at h
-    · split at h <;>
-        (injection h with h; injection h with h1 _; subst h1; exact hgood)
+    · rename_i gl hgl
+      have hg : GLGood gl := ⟨generalLemma_sound _ gl hgl, generalLemma_roles _ gl hgl⟩
+      split at h <;>
+        (injection h with h; injection h with h1 _; subst h1)
+      · exact ⟨forall_mem_append_singleton hgood.1 hg, forall_mem_append_singleton hgood.2 hg⟩
+      · exact ⟨forall_mem_append_singleton hgood.1 hg, hgood.2⟩
+      · exact ⟨hgood.1, forall_mem_append_singleton hgood.2 hg⟩
+    · cases h
+    · cases h
+    · cases h
+  · split at h
+    · split at h
+      · cases h
+      · split at h <;>
+          (injection h with h; injection h with h1 _; subst h1; exact hgood)
     · cases h
     · cases h
     · cases h
   · cases h
   · cases h
 
-theorem outlineFold_good (m : PlaceholderMap) : ∀ (spec : Specification) (po : ProofOutline) (taken : List Pred)
-    (po' : ProofOutline) (taken' : List Pred), POGood po →
-    spec.foldl (outlineStep m) (.ok (po, taken)) = .ok (po', taken') → POGood po' := by
+theorem outlineFold_stuck (m : PlaceholderMap) (spec : Specification) (st : Outcome (ProofOutline × List Pred × List Pred))
+    (hst : ∀ x, st ≠ .ok x) : spec.foldl (outlineStep m) st = st := by
+  induction spec with
+  | nil => rfl
+  | cons b spec ihs =>
+    simp only [List.foldl_cons]
+    have : outlineStep m st b = st := by
+      cases st with
+      | ok x => exact absurd rfl (hst x)
+      | err e => rfl
+      | panic s => rfl
+      | timeout => rfl
+    rw [this]; exact ihs
+
+theorem outlineFold_good (m : PlaceholderMap) : ∀ (spec : Specification) (po : ProofOutline) (taken lem : List Pred)
+    (po' : ProofOutline) (taken' lem' : List Pred), POGood po →
+    spec.foldl (outlineStep m) (.ok (po, taken, lem)) = .ok (po', taken', lem') → POGood po' := by
   intro spec
   induction spec with
-  | nil => intro po taken po' taken' hg h; simp only [List.foldl_nil] at h; injection h with h; injection h with h1 _; subst h1; exact hg
+  | nil =>
+    intro po taken lem po' taken' lem' hg h
+    simp only [List.foldl_nil] at h; injection h with h; injection h with h1 _; subst h1; exact hg
   | cons a spec ih =>
-    intro po taken po' taken' hg h
+    intro po taken lem po' taken' lem' hg h
     simp only [List.foldl_cons] at h
-    have hstuck : ∀ (st : Outcome (ProofOutline × List Pred)), (∀ x, st ≠ .ok x) →
-        spec.foldl (outlineStep m) st = st := by
-      intro st hst
-      clear ih h
-      induction spec with
-      | nil => rfl
-      | cons b spec ihs =>
-        simp only [List.foldl_cons]
-        have : outlineStep m st b = st := by
-          cases st with
-          | ok x => exact absurd rfl (hst x)
-          | err e => rfl
-          | panic s => rfl
-          | timeout => rfl
-        rw [this]; exact ihs
-    cases hs : outlineStep m (.ok (po, taken)) a with
+    cases hs : outlineStep m (.ok (po, taken, lem)) a with
     | ok x =>
-      obtain ⟨po1, taken1⟩ := x
+      obtain ⟨po1, taken1, lem1⟩ := x
       rw [hs] at h
-      exact ih po1 taken1 po' taken' (outlineStep_good m po taken a po1 taken1 hg hs) h
-    | err e => rw [hs, hstuck _ (fun x hx => by cases hx)] at h; cases h
-    | panic s => rw [hs, hstuck _ (fun x hx => by cases hx)] at h; cases h
-    | timeout => rw [hs, hstuck _ (fun x hx => by cases hx)] at h; cases h
+      exact ih po1 taken1 lem1 po' taken' lem' (outlineStep_good m po taken lem a po1 taken1 lem1 hg hs) h
+    | err e => rw [hs, outlineFold_stuck m spec _ (fun x hx => by cases hx)] at h; cases h
+    | panic s => rw [hs, outlineFold_stuck m spec _ (fun x hx => by cases hx)] at h; cases h
+    | timeout => rw [hs, outlineFold_stuck m spec _ (fun x hx => by cases hx)] at h; cases h
 
 /-- every lemma of an accepted proof outline is sound, its obligations are conjectures and what it
     contributes are axioms -/
 theorem proofOutlineFrom_good (spec : Specification) (taken : List Pred) (m : PlaceholderMap) (po : ProofOutline)
     (h : proofOutlineFrom spec taken m = .ok po) : POGood po := by
-  rw [proofOutlineFrom_eq] at h
-  cases hf : spec.foldl (outlineStep m) (.ok ({}, taken)) with
+  unfold proofOutlineFrom at h
+  cases hf : spec.foldl (outlineStep m) (.ok ({}, taken, [])) with
   | ok x =>
-    obtain ⟨po1, taken1⟩ := x
+    obtain ⟨po1, taken1, lem1⟩ := x
     simp only [hf] at h
     injection h with h; subst h
     have h0 : POGood ({} : ProofOutline) := by
       constructor
       · intro l hl; cases hl
       · intro l hl; cases hl
-    exact outlineFold_good m spec {} taken po1 taken1 h0 hf
+    exact outlineFold_good m spec {} taken [] po1 taken1 lem1 h0 hf
   | err e => simp [hf] at h
   | panic s => simp [hf] at h
   | timeout => simp [hf] at h
